@@ -158,7 +158,10 @@ func execTCP(f []string) vlib.Res {
 		t := server.VerifC10NewTCP(scripted, nil, 8)
 		c1 := runConn(t, s1, "-", vlib.Atoi(f[2]))
 		c2 := runConn(t, s2, "-", 0)
-		or := judgeStream(s1, c1.out, ownReply, "tcp/abort/first")
+		// the dying connection may end inside a frame (its write failed); what did arrive whole is judged
+		whole, rest := splitFrames(c1.out)
+		_ = whole
+		or := judgeStream(s1, c1.out[:len(c1.out)-len(rest)], ownReply, "tcp/abort/first")
 		if or == "ok" {
 			or = judgeStream(s2, c2.out, ownReply, "tcp/abort/second")
 		}
